@@ -164,7 +164,13 @@ class DocSim(core.Engine):
         root = sess.root
         if any(isinstance(t, BlockComment) and not t.claimed for t in root.token_store):
             # an unowned comment is invisible to the model; text inserted next to it may merge with it.
-            # Like C03 the clause speaks about documents whose comments are all attributed.
+            # Like C03 the clause speaks about documents whose comments are all attributed.  The exclusion is
+            # sticky: what was inserted next to an unowned comment stays merged after the comment is claimed again.
+            if eff is not None and not eff.noop_expected:
+                sess.edited_with_unowned_comment = True
+            sess.stats['reparse_skipped_unowned_comment'] += 1
+            return V
+        if getattr(sess, 'edited_with_unowned_comment', False):
             sess.stats['reparse_skipped_unowned_comment'] += 1
             return V
         text = print_model(root)
